@@ -4,7 +4,7 @@ import vcheck
 PID = "C05"
 MODULES = ["BeffVerif.Props.C05"]
 AUDIT = "BeffVerif/Audit/C05.lean"
-HYP = {"NoObjectUnionOnLeft": "D25"}
+HYP = {"NoObjectUnionOnLeft": "D25", "NoIndexUnionOnRight": "D84"}
 
 def spec_oracle(req, ir, second):
     """second channel of the Lean driver: ((spec yes|no complete|incomplete <witness>) (hyp-failed …)).
@@ -31,7 +31,7 @@ def spec_oracle(req, ir, second):
 def known(chk):
     base = vcheck.known_by_hyp(chk, HYP)
     def m(req, ir, orc, hyps):
-        # D25 only explains the unsound direction
+        # D25 / D84 only explain the unsound direction
         if "c05.unsound" not in orc:
             return None
         return base(req, ir, "(oracle fail c05.unsound)", hyps)
